@@ -716,7 +716,10 @@ def oracle_cases(ctx, deep):
     gens = [dict(base), dict(base, eta='0.5'), dict(base, label=None), dict(base, bias='X', deformation_name='XZZX'),
             dict(base, sizes='2x2,3x4,2x3x4', code_class='Toric3DCode', bias='Y'),
             dict(base, method='splitting', decoder_class='MatchingDecoder'),
-            dict(base, sizes='4,3x5', eta='0,1,3', prob='0.05,0.1')]
+            dict(base, sizes='4,3x5', eta='0,1,3', prob='0.05,0.1'),
+            dict(base, eta='0.1,0.2,0.3,0.4'), dict(base, eta='1,1.5,2.5,2', bias='X'),
+            dict(base, eta='10,10.5,inf,1000', bias='Y'), dict(base, eta='0,0.25', prob='0.3'),
+            dict(base, sizes='3x4,4x3,5', prob='0:0.06'), dict(base, sizes='2x3x4,4', code_class='Planar3DCode')]
     for _ in range(400 if deep else 60):
         a = gen_args(rng, valid=True, big=deep)
         a['eta'] = gen_eta_string(rng, nonneg=True, integral_ok=False)
